@@ -625,6 +625,7 @@ impl<P: Property> DynProp for Adapter<P> {
                     let mut runner = TestRunner::new_with_rng(config, rng);
                     let strat = p.strategy(tier);
                     let failed_once = AtomicBool::new(false);
+                    let last_fail: Mutex<Option<(P::Input, Failure)>> = Mutex::new(None);
                     let res = runner.run(&strat, |input| {
                         let counting = !failed_once.load(Ordering::Relaxed);
                         if counting && shared.stop.load(Ordering::Relaxed) {
@@ -643,7 +644,9 @@ impl<P: Property> DynProp for Adapter<P> {
                             Err(f) => {
                                 failed_once.store(true, Ordering::Relaxed);
                                 shared.stop.store(true, Ordering::Relaxed);
-                                Err(TestCaseError::fail(f.kind))
+                                let kind = f.kind.clone();
+                                *last_fail.lock().unwrap() = Some((input.clone(), f));
+                                Err(TestCaseError::fail(kind))
                             }
                         }
                     });
@@ -652,12 +655,26 @@ impl<P: Property> DynProp for Adapter<P> {
                         Err(TestError::Fail(_, input)) => {
                             // re-run the shrunk case to get its failure
                             let mut obs = Obs::default();
-                            let f = match guarded(&*p, &input, &mut obs, &env) {
-                                Err(f) => f,
-                                Ok(()) => Failure::new("flaky", "shrunk case passed on re-run (non-deterministic failure)"),
-                            };
-                            let path = write_replay(p.id(), &input, &f);
-                            found.lock().unwrap().push((p.render(&input), f, path));
+                            match guarded(&*p, &input, &mut obs, &env) {
+                                Err(f) => {
+                                    let path = write_replay(p.id(), &input, &f);
+                                    found.lock().unwrap().push((p.render(&input), f, path));
+                                }
+                                Ok(()) => {
+                                    // not reproducible on re-run: report the last failing input seen
+                                    let (inp, f0) = last_fail.lock().unwrap().take().unwrap_or((input.clone(), Failure::new("flaky", "no failure recorded")));
+                                    let mut again = 0;
+                                    for _ in 0..5 {
+                                        let mut o = Obs::default();
+                                        if guarded(&*p, &inp, &mut o, &env).is_err() {
+                                            again += 1;
+                                        }
+                                    }
+                                    let f = Failure::new(format!("flaky:{}", f0.kind), format!("failed once, then {again}/5 on re-runs: {}", f0.msg));
+                                    let path = write_replay(p.id(), &inp, &f);
+                                    found.lock().unwrap().push((p.render(&inp), f, path));
+                                }
+                            }
                         }
                         Err(TestError::Abort(r)) => {
                             eprintln!("INCONCLUSIVE: proptest aborted: {r}");
